@@ -565,19 +565,34 @@ pub fn run_thr(trace: &Trace) -> (RunReport, Vec<u8>) {
             }
         }
         // burst: maintenance still runs (the flag was released on every path)
-        if burst {
+        {
+            // 450 more un-synced inserts from this thread: they only complete if the
+            // housekeeper path still runs maintenance when the write queue fills
             let r = catch_unwind(AssertUnwindSafe(|| {
-                let k = 2000u16;
-                cache.insert(K::tracked(k, &reg), V::new(950_000, 1, &reg));
-                // an un-synced insert must still be applied by the housekeeper path
-                for _ in 0..400 {
-                    let _ = cache.get(&K::probe(k));
+                main_hooks.begin_op(Faults::default());
+                for i in 0..450u32 {
+                    cache.insert(K::tracked(2000 + (i % 8) as u16, &reg), V::new(950_000 + i, 1, &reg));
                 }
-                mini_moka::sync::ConcurrentCacheExt::sync(&cache);
-                cache.entry_count()
             }));
-            if let Ok(_cnt) = r {
-                rep.flag("c09_maintenance_alive_checked", 1);
+            match r {
+                Ok(()) => rep.flag("c09_maintenance_alive_checked", 1),
+                Err(p) => {
+                    let msg = payload_str(&p);
+                    if msg.contains(crate::hooks::RETRY_LIVELOCK) {
+                        rep.viol(
+                            "C09.maintenance-stalled",
+                            "after the threads stopped, 450 further un-synced inserts could not complete: the write queue is full and maintenance no longer runs (the maintenance flag was not released, or the flush trigger no longer fires)".into(),
+                            srep.steps,
+                            None,
+                        );
+                        finish_flags(&mut rep, &shared, &hist, &srep.schedule);
+                        std::mem::forget(cache);
+                        mini_moka::verif::install(None);
+                        return (rep, srep.schedule);
+                    } else if !injected {
+                        rep.viol("C08.internal-panic", format!("insert after the run panicked: {}", msg), srep.steps, None);
+                    }
+                }
             }
         }
     }
